@@ -275,11 +275,11 @@ Definition tspec_step (w : nat) (depth : N) (noconf : bool) (start : arr) (cyc_w
 
 (* register contents, the one next to the read port first *)
 Definition pipe := list bv.
-Definition pipe_out (p : pipe) (x : bv) : bv := last p x.          (* L = 0: combinational *)
-Definition pipe_step (p : pipe) (x : bv) : pipe :=
+Definition pipe_out {A} (p : list A) (x : A) : A := last p x.          (* L = 0: combinational *)
+Definition pipe_step {A} (p : list A) (x : A) : list A :=
   match p with [] => [] | _ => x :: removelast p end.
 
-Fixpoint pipe_run (p : pipe) (xs : list bv) : list bv :=
+Fixpoint pipe_run {A} (p : list A) (xs : list A) : list A :=
   match xs with
   | [] => []
   | x :: r => pipe_out p x :: pipe_run (pipe_step p x) r
